@@ -9,7 +9,9 @@
 //!        session id, counter, exchange id, initiator flag, kind (standalone ack / CloseSession /
 //!        other status report / PBKDFParamRequest / IM request), ack, reliable flag; `rnd` = the
 //!        random initial counter of a session the datagram creates (filled in by the harness)
-//!        => `blocked` (a message is waiting) | `kept` (left in the RX slot) | `drop`
+//!        => `blocked` (a message is waiting) | `kept` (left in the RX slot) | `drop`, followed by
+//!        ` tx <port>/<sid>/<exch>/<I|R>/<ack|->/<proto>.<opcode>` for every datagram the receive path sent in
+//!        answer, decoded as the peer reads it (the standalone ack of a duplicate, Busy, CloseSession, ...)
 //!   `acc`                 `Exchange::accept` polled once   => `acc <uid> <idx>` | `blocked`
 //!   `recv <uid> <idx>`    `Exchange::recv` of that handle is called and polled once; if it stays pending the future
 //!        stays parked and the next `recv` of the handle polls it again (as the executor would)
@@ -45,11 +47,55 @@ use crate::rng::Rng;
 
 pub const NODE_RULE: &str = "node cases (unit level, REAL RX slot): one real Matter; every op is one atomic section of the receive path on the real RX packet slot - an iteration of process_rx for an unsecured datagram (2-3 peers that share exchange ids; new-session requests, requests, answers, standalone acks, CloseSession and other status reports, duplicates and stale counters, secure datagrams for absent sessions), Exchange::accept / Exchange::recv polled once, sends, Exchange drops, initiate_for_session, secure sessions established, sessions removed under waiting messages and live handles, the 28-bit internal session id allocator positioned before its wrap and onto ids still in use, time steps around the 1000 ms accept deadline, both RX sweeps and the dropped-exchange closer; the driver replays every op with RxPath.step and compares result, table snapshot and RX-slot content";
 
-struct Sink;
-impl NetworkSend for Sink {
-    async fn send_to(&mut self, _data: &[u8], _addr: Address) -> Result<(), Error> {
+/// the node's network: every datagram the receive path sends is recorded
+struct Sink<'b>(&'b core::cell::RefCell<Vec<(Vec<u8>, Address)>>);
+impl NetworkSend for Sink<'_> {
+    async fn send_to(&mut self, data: &[u8], addr: Address) -> Result<(), Error> {
+        self.0.borrow_mut().push((data.to_vec(), addr));
         Ok(())
     }
+}
+
+/// a datagram the node sent, decoded as the PEER's receive path reads it:
+/// `<port>/<session id>/<exchange id>/<I|R>/<ack|->/<protocol>.<opcode>` (`<port>/<session id>/enc` if encrypted)
+fn wire(data: &[u8], to: &Address) -> String {
+    let port = match to {
+        Address::Udp(a) => a.port(),
+        _ => 0,
+    };
+    if data.len() < 8 {
+        return format!("{}/short", port);
+    }
+    let sid = u16::from_le_bytes([data[1], data[2]]);
+    if sid != 0 {
+        return format!("{}/{}/enc", port, sid);
+    }
+    let mut off = 8;
+    if data[0] & 0x04 != 0 {
+        off += 8;
+    }
+    off += match data[0] & 0x03 {
+        1 => 8,
+        2 => 2,
+        _ => 0,
+    };
+    if data.len() < off + 6 {
+        return format!("{}/{}/short", port, sid);
+    }
+    let xf = data[off];
+    let opcode = data[off + 1];
+    let exch = u16::from_le_bytes([data[off + 2], data[off + 3]]);
+    let proto = u16::from_le_bytes([data[off + 4], data[off + 5]]);
+    let mut o = off + 6;
+    if xf & 0x10 != 0 {
+        o += 2;
+    }
+    let ack = if xf & 0x02 != 0 && data.len() >= o + 4 {
+        u32::from_le_bytes([data[o], data[o + 1], data[o + 2], data[o + 3]]).to_string()
+    } else {
+        "-".into()
+    };
+    format!("{}/{}/{}/{}/{}/{}.{}", port, sid, exch, if xf & 1 != 0 { "I" } else { "R" }, ack, proto, opcode)
 }
 
 fn addr(port: u16) -> Address {
@@ -152,16 +198,23 @@ impl<'a, C: Crypto> World<'a, C> {
                     w.get(6).copied().unwrap_or("o"), ack, w.get(8).copied() == Some("r"));
                 let before: Vec<u32> = self.matter.with_state(|st| st.verif_sessions().iter().map(|s| s.id()).collect());
                 let runner = self.matter.transport_runner(self.crypto);
-                let res = block_on(runner.verif_process_rx_datagram(addr(port), &data, Sink));
+                let sent = core::cell::RefCell::new(Vec::new());
+                let res = block_on(runner.verif_process_rx_datagram(addr(port), &data, Sink(&sent)));
                 // the random initial counter of a session this datagram created
                 let rnd = self.matter.with_state(|st| {
                     st.verif_sessions().iter().find(|s| !before.contains(&s.id())).map(|s| s.verif_msg_ctr())
                 });
-                let r = match res {
+                let mut r = match res {
                     None => "blocked",
                     Some(Ok(true)) => "kept",
                     Some(_) => "drop",
-                };
+                }
+                .to_string();
+                // what the receive path put on the wire in answer (ack of a duplicate, Busy, CloseSession, ...)
+                for (d, to) in sent.borrow().iter() {
+                    r.push_str(" tx ");
+                    r.push_str(&wire(d, to));
+                }
                 let mut ww: Vec<String> = w.iter().map(|t| t.to_string()).collect();
                 while ww.len() < 10 {
                     ww.push("0".into());
@@ -169,7 +222,7 @@ impl<'a, C: Crypto> World<'a, C> {
                 if let Some(c) = rnd {
                     ww[9] = c.to_string();
                 }
-                (r.to_string(), ww.join(" "))
+                (r, ww.join(" "))
             }
             "acc" => {
                 let m = self.matter;
@@ -389,6 +442,98 @@ pub fn gen_node(r: &mut Rng, out: &mut Out, len: usize) {
         let xids: Vec<u64> = vec![r.range(1, 65535), r.range(1, 65535), 7];
         let mut handles: Vec<(u64, u64)> = Vec::new();
         let mut last_full = String::new();
+        // every datagram that arrived so far (retransmissions repeat one of them verbatim)
+        let mut arrived: Vec<String> = Vec::new();
+        // profile "closed exchange, closing ack lost" (every fourth case): a peer opens an unsecured session; its
+        // first message is consumed or times out; WE initiate an exchange on that session (or keep the peer's);
+        // the peer's reliable message on it is received, (mostly) consumed, the Exchange is dropped and the closer
+        // sends the closing ack and frees the slot; then the peer RETRANSMITS that message - the ack was lost - once
+        // or twice, before or after the closer ran: a duplicate for an exchange that is gone, initiated by us or
+        // by the peer
+        if r.chance(1, 4) {
+            let pi = r.below(ports.len() as u64) as usize;
+            let port = ports[pi];
+            ctrs[pi] += 1;
+            let first = format!("arr {} 0 {} {} I n - r 0", port, ctrs[pi], *r.pick(&xids));
+            arrived.push(first.clone());
+            let f = exec(&first);
+            let snap = super::tc::parse_snap(&f.split(" @ ").next().unwrap_or("").to_string());
+            if let Some(uid) = snap.sessions.iter().find(|s| s.port as u64 == port && s.lsid == 0).map(|s| s.uid as u64) {
+                let ours = r.chance(3, 4);
+                let mut target: Option<(u64, u64, bool)> = None; // (slot, exchange id, we are the initiator)
+                if r.chance(2, 3) {
+                    if exec("acc").starts_with("acc ") {
+                        exec(&format!("recv {} 0", uid));
+                        handles.push((uid, 0));
+                        if !ours {
+                            target = snap.sessions.iter().find(|s| s.uid as u64 == uid)
+                                .and_then(|s| s.slots.first().cloned().flatten()).map(|x| (0, x.id as u64, false));
+                        }
+                    }
+                } else {
+                    exec("t 1000");
+                    exec("swa");
+                    exec("swd");
+                }
+                if ours || target.is_none() {
+                    let fi = exec(&format!("init {}", uid));
+                    let s2 = super::tc::parse_snap(&fi.split(" @ ").next().unwrap_or("").to_string());
+                    for s in s2.sessions.iter().filter(|s| s.uid as u64 == uid) {
+                        for (i, sl) in s.slots.iter().enumerate() {
+                            if let Some(x) = sl {
+                                if x.role == "IO" && !handles.contains(&(uid, i as u64)) {
+                                    handles.push((uid, i as u64));
+                                    target = Some((i as u64, x.id as u64, true));
+                                }
+                            }
+                        }
+                    }
+                }
+                if let Some((idx, xid, we_init)) = target {
+                    // our own message first (then the peer's message acknowledges it), or the peer speaks at once
+                    let mut ack = "-".to_string();
+                    if r.chance(1, 2) {
+                        let fs = exec(&format!("send {} {} r", uid, idx));
+                        let s3 = super::tc::parse_snap(&fs.split(" @ ").next().unwrap_or("").to_string());
+                        if let Some(c) = s3.sessions.iter().find(|s| s.uid as u64 == uid)
+                            .and_then(|s| s.slots.get(idx as usize).cloned().flatten()).and_then(|x| x.rt).map(|t| t.0) {
+                            ack = c.to_string();
+                        }
+                    }
+                    ctrs[pi] += 1;
+                    let msg = format!("arr {} 0 {} {} {} {} {} {} 0", port, ctrs[pi], xid, if we_init { "R" } else { "I" },
+                        if r.chance(1, 5) { "s" } else { "o" }, ack, if r.chance(5, 6) { "r" } else { "u" });
+                    arrived.push(msg.clone());
+                    exec(&msg);
+                    if r.chance(4, 5) {
+                        exec(&format!("recv {} {}", uid, idx));
+                    }
+                    if r.chance(1, 6) {
+                        exec(&msg); // retransmission while the exchange is still open
+                    }
+                    if r.chance(5, 6) {
+                        exec(&format!("drop {} {}", uid, idx));
+                        handles.retain(|h| *h != (uid, idx));
+                    }
+                    if r.chance(1, 4) {
+                        exec("swo");
+                    }
+                    if r.chance(1, 5) {
+                        exec(&msg); // ... while it is dropped and waits for the closer
+                    }
+                    if r.chance(5, 6) {
+                        exec("swd");
+                    }
+                    if r.chance(1, 3) {
+                        exec(&format!("t {}", *r.pick(&[1u64, 300, 2000])));
+                    }
+                    last_full = exec(&msg); // the closing ack was lost: the peer repeats its message
+                    if r.chance(1, 3) {
+                        last_full = exec(&msg);
+                    }
+                }
+            }
+        }
         for _ in 0..len {
             // live sessions / slots from the last snapshot
             let snap = super::tc::parse_snap(&last_full.split(" @ ").next().unwrap_or("").to_string());
@@ -399,6 +544,18 @@ pub fn gen_node(r: &mut Rng, out: &mut Out, len: usize) {
             // discard it, otherwise mostly arrivals
             let roll = if waiting { 30 + r.below(70) } else if r.chance(1, 2) { r.below(30) } else { r.below(100) };
             let op: String = match roll {
+                // a retransmission: an earlier datagram arrives again, verbatim
+                0..=29 if !arrived.is_empty() && r.chance(1, 7) => r.pick(&arrived).clone(),
+                // a message for an exchange WE initiated on an unsecured session (initiator flag clear)
+                0..=29 if r.chance(1, 6) && snap.sessions.iter().any(|s| s.lsid == 0 && s.slots.iter().flatten().any(|x| x.role.starts_with('I'))) => {
+                    let cands: Vec<(u64, u64)> = snap.sessions.iter().filter(|s| s.lsid == 0)
+                        .flat_map(|s| s.slots.iter().flatten().filter(|x| x.role.starts_with('I')).map(move |x| (s.port as u64, x.id as u64))).collect();
+                    let (port, xid) = *r.pick(&cands);
+                    let pi = ports.iter().position(|p| *p == port).unwrap_or(0);
+                    ctrs[pi] += 1;
+                    let ack = if r.chance(1, 4) { r.below(1 << 28).to_string() } else { "-".into() };
+                    format!("arr {} 0 {} {} R {} {} {} 0", port, ctrs[pi], xid, if r.chance(1, 5) { "s" } else { "o" }, ack, if r.chance(3, 4) { "r" } else { "u" })
+                }
                 0..=29 => {
                     let pi = r.below(ports.len() as u64) as usize;
                     let port = ports[pi];
@@ -444,6 +601,9 @@ pub fn gen_node(r: &mut Rng, out: &mut Out, len: usize) {
                 89..=94 => "swo".into(),
                 _ => "swd".into(),
             };
+            if op.starts_with("arr ") && !arrived.contains(&op) {
+                arrived.push(op.clone());
+            }
             let full = exec(&op);
             let res = full.split(" # ").next().unwrap_or("").trim().to_string();
             let w: Vec<&str> = op.split_whitespace().collect();
